@@ -259,6 +259,37 @@ type Session struct {
 	// schemaCtx: the schema unqualified names resolve in while a function / trigger / column default of that schema runs
 	// (the bucket's functions are created with `set search_path`); empty = the connection default (db.DefaultSchema)
 	schemaCtx string
+	// DeadlockVictim: set by a Scheduler (from Block, before it returns) when this session's wait closes a cycle in the
+	// wait-for graph; the wait then ends the way PostgreSQL's deadlock detector ends it: the statement fails with
+	// SQLSTATE 40P01 and the transaction is aborted (Explicit Locking, section 13.3.4 "Deadlocks": "PostgreSQL automatically
+	// detects deadlock situations and resolves them by aborting one of the transactions involved"). Which transaction is
+	// aborted is timing dependent in PostgreSQL; here the scheduler decides.
+	DeadlockVictim bool
+}
+
+// Xid is the id of the session's open transaction (0 when none).
+func (s *Session) Xid() uint64 {
+	if s.tx == nil {
+		return 0
+	}
+	return s.tx.id
+}
+
+// TxDone reports whether transaction xid has finished (committed or rolled back); unknown ids count as finished.
+func (db *DB) TxDone(xid uint64) bool {
+	db.mu.Lock()
+	defer db.mu.Unlock()
+	st := db.tx[xid]
+	return st == nil || st.done
+}
+
+func (s *Session) checkVictim() {
+	if s.DeadlockVictim {
+		s.DeadlockVictim = false
+		s.Waiting = 0
+		s.db.Stats["deadlocks"]++
+		panic(errf("40P01", "deadlock detected"))
+	}
 }
 
 func (db *DB) NewSession() *Session {
@@ -321,6 +352,24 @@ func (s *Session) finish(commit bool) {
 	db.cond.Broadcast()
 }
 
+// abortKeepBlock: the transaction is over for everybody else (undone, marked aborted, locks released) while the session
+// stays in the failed transaction block until it issues ROLLBACK/COMMIT.
+func (s *Session) abortKeepBlock() {
+	db, tx := s.db, s.tx
+	for i := len(tx.undo) - 1; i >= 0; i-- {
+		tx.undo[i]()
+	}
+	tx.undo = nil
+	tx.failed = true
+	db.tx[tx.id].done = true
+	for k, l := range db.advisory {
+		if l.holder == s && l.xact {
+			delete(db.advisory, k)
+		}
+	}
+	db.cond.Broadcast()
+}
+
 // waitFor blocks until transaction xid has finished. db.mu is held on entry and on return.
 func (s *Session) waitFor(xid uint64) {
 	db := s.db
@@ -331,6 +380,7 @@ func (s *Session) waitFor(xid uint64) {
 			db.mu.Unlock()
 			db.Sched.Block(s, xid)
 			db.mu.Lock()
+			s.checkVictim()
 		} else {
 			db.cond.Wait()
 		}
@@ -361,6 +411,7 @@ func (s *Session) advisoryLock(key int64, xact bool) {
 			db.mu.Unlock()
 			db.Sched.Block(s, on)
 			db.mu.Lock()
+			s.checkVictim()
 			s.Waiting = 0
 		} else {
 			db.cond.Wait()
@@ -499,8 +550,15 @@ func (s *Session) execOne(st Stmt, sql string) (res *Result, err error) {
 			if s.tx != nil {
 				if implicit {
 					s.finish(false)
+				} else if len(s.tx.savepoints) == 0 {
+					// An error inside a transaction block aborts the transaction at once (PostgreSQL: AbortCurrentTransaction ->
+					// AbortTransaction in state TBLOCK_INPROGRESS): all its changes are undone and ALL its locks are released now
+					// (row locks, in-flight index entries, transaction-scoped advisory locks; Explicit Locking 13.3: locks are held
+					// "until the end of the transaction", and the abort is that end), waiters wake up; the session then only accepts
+					// ROLLBACK/COMMIT (25P02), which merely leaves the block.
+					s.abortKeepBlock()
 				} else {
-					// statement-level rollback, then the transaction is marked failed
+					// inside a savepoint only the subtransaction is aborted: statement-level rollback, failed until ROLLBACK TO
 					for i := len(s.tx.undo) - 1; i >= undoMark; i-- {
 						s.tx.undo[i]()
 					}
